@@ -341,13 +341,20 @@ def native_replay_kani(h, test_src, features):
 # --------------------------------------------------------------------------- evidence
 
 def write_evidence(prop, tier, seed, level, coverage, assumptions, wall_s, violations):
-    os.makedirs(EVID_DIR, exist_ok=True)
-    ev = {"property_id": prop, "tier": tier, "seed": seed, "level": level, "coverage": coverage,
+    # partial runs (--only / --no-e1 / --no-e2) are development aids: their record goes to .work, never to evidence/
+    ddir = EVID_DIR
+    if prop.endswith("_partial"):
+        ddir = os.path.join(os.path.dirname(EVID_DIR), ".work", "partial")
+        prop_id = prop[:-len("_partial")]
+    else:
+        prop_id = prop
+    os.makedirs(ddir, exist_ok=True)
+    ev = {"property_id": prop_id, "tier": tier, "seed": seed, "level": level, "coverage": coverage,
           "assumptions": assumptions, "wall_s": round(wall_s, 1), "violations": violations}
-    tmp = os.path.join(EVID_DIR, prop + ".json.tmp")
+    tmp = os.path.join(ddir, prop_id + ".json.tmp")
     with open(tmp, "w") as f:
         json.dump(ev, f, indent=1, sort_keys=True)
-    os.replace(tmp, os.path.join(EVID_DIR, prop + ".json"))
+    os.replace(tmp, os.path.join(ddir, prop_id + ".json"))
     return ev
 
 
